@@ -397,7 +397,10 @@ extern "C" int LLVMFuzzerTestOneInput(const uint8_t* data, size_t size) {
         else {
           uint32_t lid = (!labels.empty() && k != 3) ? labels[fdp.ConsumeIntegralInRange<size_t>(0, labels.size() - 1)] : fdp.ConsumeIntegral<uint32_t>();
           txt = "bind L" + std::to_string(lid) + " ";
-          call = [=](BaseEmitter* em, CodeHolder&) -> Error { return em->bind(Label(lid)); };
+          // every other bind is issued with a pending inline comment (one-shot state): a failed bind has to clear it like a failed instruction does
+          const bool with_comment = ek == 0 && (ops & 1) == 0;   // Assembler only: its bind() consumes the comment (logs it); a Builder's bind() never touches it, pass or fail
+          if (with_comment) txt += "(comment) ";
+          call = [=](BaseEmitter* em, CodeHolder&) -> Error { if (with_comment) em->set_inline_comment("one-shot"); return em->bind(Label(lid)); };
           err = call(e, code);
           if (err == Error::kOk) bound.push_back(lid);
         }
